@@ -6,7 +6,7 @@ package auth
 // stores (file: JSON file in a temp dir; database: SQLite file through internal/resources) and prints
 // the answers of each.
 //
-// VERIF_IN : one JSON object per line {"id":n,"ops":[{"op":"write","user":{...}} | {"op":"delete","name":..} |
+// VERIF_IN : one JSON object per line {"id":n,"cap":k (AuthCache capacity, 0 = default),"ops":[{"op":"write","user":{...}} | {"op":"delete","name":..} |
 //            {"op":"read","name":..} | {"op":"list","mask":bool} | {"op":"perms","name":..} |
 //            {"op":"setperm","name":..,"priv":..,"on":bool} | {"op":"haspriv","name":..,"priv":..} |
 //            {"op":"flush"} | {"op":"reopen"} | {"op":"cachedrop"}]}
@@ -46,6 +46,7 @@ type v31Op struct {
 
 type v31History struct {
 	ID  int     `json:"id"`
+	Cap int     `json:"cap"` // capacity of the AuthCache for this history (0 = default 1000)
 	Ops []v31Op `json:"ops"`
 }
 
@@ -94,9 +95,18 @@ func v31Run(t *testing.T, ops []v31Op, open func() (userIOService, error)) []v31
 
 	out := []v31Answer{}
 
+	dead := false
+
 	for _, op := range ops {
 		AuthService = svc
 		a := v31Answer{Perms: []string{}}
+
+		if dead {
+			a.Err = true
+			out = append(out, a)
+
+			continue
+		}
 
 		switch op.Op {
 		case "write":
@@ -141,9 +151,15 @@ func v31Run(t *testing.T, ops []v31Op, open func() (userIOService, error)) []v31
 			a.Err = svc.Close() != nil
 			caches.Purge(caches.AuthCache)
 
-			svc, err = open()
+			nsvc, err := open()
 			if err != nil {
-				t.Fatalf("reopen: %v", err)
+				// the store cannot be reopened: report it as the answer of this and of every later operation
+				t.Logf("reopen failed: %v", err)
+
+				a.Err = true
+				dead = true
+			} else {
+				svc = nsvc
 			}
 		default:
 			t.Fatalf("bad op %q", op.Op)
@@ -152,7 +168,10 @@ func v31Run(t *testing.T, ops []v31Op, open func() (userIOService, error)) []v31
 		out = append(out, a)
 	}
 
-	_ = svc.Close()
+	if !dead {
+		_ = svc.Close()
+	}
+
 	caches.Purge(caches.AuthCache)
 
 	return out
@@ -187,6 +206,14 @@ func TestVerifC31(t *testing.T) {
 		}
 
 		n++
+
+		// the caches are (re-)created with caches.MaxCacheSize after every purge; v31Run purges first
+		if h.Cap > 0 {
+			caches.MaxCacheSize = h.Cap
+		} else {
+			caches.MaxCacheSize = 1000
+		}
+
 		sub := filepath.Join(dir, "h"+uuid.NewString())
 		_ = os.MkdirAll(sub, 0o700)
 
